@@ -470,6 +470,11 @@ def replay(ctx, prop, path):
     ctx.sh('%s %s %s > %s' % (ctx.driver, cases, res, out))
     print('case :', f['case'])
     print('impl :', open(res).read().strip())
+    if d.get('minimised_case'):
+        print('minimised case :', d['minimised_case'])
+    if d.get('go_test'):
+        print('as Go code (of the minimised case when there is one):')
+        print(d['go_test'])
     bad = False
     for l in open(out):
         fl = l.split()
